@@ -35,6 +35,13 @@ Definition uniform_cfg (st : store) : Prop :=
 
 Definition mode_ok (st : store) (mp : option Z) : Prop := reader_mode mp = CfgLabel \/ uniform_cfg st.
 
+(* with the repaired max_persist == 1 branch (config[label], commit 71280f9) every read uses the label's own configuration *)
+Lemma mode_ok_always (st : store) mp : mode_ok st mp.
+Proof.
+  left. unfold reader_mode. destruct mp as [k|]; [|reflexivity].
+  destruct (k >? 1); [reflexivity|]. destruct repairs_in_place as [-> _]. reflexivity.
+Qed.
+
 Lemma targets_at_fst labels slots ps : length slots = length labels ->
   map fst (targets_at labels slots ps) = labels_at labels ps.
 Proof.
@@ -148,7 +155,7 @@ Proof.
         assert (Hld : forall l, In l ls -> isld labels loaded l = true) by (intros l Il; apply R10, Hload, Il).
         split; [apply fold_touch_NoDup, N|]. split.
         * rewrite fold_touch_filter by exact Hld. rewrite Fl. reflexivity.
-        * intros Coh l Il. apply fold_touch_In in Il as [Il|Il]; [apply Hld, Il | apply Ph; assumption].
+        * intros l Il. apply fold_touch_In in Il as [Il|Il]; [apply Hld, Il | apply Ph; assumption].
     - eexists _, _. split; [reflexivity|]. split; [|auto].
       constructor; cbn [mb_labels mb_slots mb_loaded mb_loaded_all mb_la mb_mp sb_labels sb_cache sb_mp s_with_cache]; auto.
       + rewrite <- R2. exact Ck'.
@@ -187,7 +194,7 @@ Proof.
       - apply (aligned_multi st labels slots); [exact R7 | | exact Tcons].
         apply (reads_ok st labels); [exact R8|]. destruct Hmode as [?|[?|?]]; [discriminate | auto | auto]. }
     assert (Hla : forall k, mp = Some k -> la = sb_cache L s).
-    { intros k E. destruct (R11 k E) as (N & Fl & Ph). rewrite <- Fl. symmetry. apply filter_all_true. apply Ph. reflexivity. }
+    { intros k E. destruct (R11 k E) as (N & Fl & Ph). rewrite <- Fl. symmetry. apply filter_all_true. apply Ph. }
     assert (LI0 : LI L F leqb st labels mp (mk_loopst L F slots loaded la (count_true loaded) pending) (sb_cache L s)).
     { constructor; cbn [ls_array ls_loaded ls_la ls_count ls_pending]; auto.
       - intros k E. split; [apply (Hla k E) | exact Ecount0]. }
@@ -201,7 +208,7 @@ Proof.
     + rewrite <- R2. exact I4.
     + intros k E. destruct (I6 k E) as [-> _]. split; [apply I4|]. split.
       * apply filter_all_true. intros l Il. apply I5, Il.
-      * intros _ l Il. apply I5, Il.
+      * intros l Il. apply I5, Il.
   - (* stale store *)
     rewrite <- Ecoh.
     destruct mp as [k|] eqn:Emp.
@@ -209,19 +216,19 @@ Proof.
       assert (Ck : cache_ok (Some k) (sb_cache L s)) by exact Ck0.
       assert (Ecount : count_true loaded = Z.of_nat (length (sb_cache L s))) by exact Ecount0.
       destruct (run_loop_stale_some L F leqb leqb_spec st labels k Coh slots loaded (count_true loaded) pending R5
-                  targets la (sb_cache L s) Ck R10 Ecount N Fl Tcons Hpend_ne) as (la' & Erun & Ck' & Hc' & N' & Fl').
+                  targets la (sb_cache L s) Ck R10 Ecount N Fl Ph Tcons Hpend_ne) as (la' & Erun & Ck' & Hc' & N' & Fl' & Ph').
       fold targets. fold pending. rewrite Erun. unfold stale_result. rewrite Tfst in *.
       destruct (fst (s_access_all false (Some k) (sb_cache L s) ls)) eqn:Eok.
       * eexists _, _. split; [reflexivity|]. split; [|auto].
         constructor; cbn [mb_labels mb_slots mb_loaded mb_loaded_all mb_la mb_mp sb_labels sb_cache sb_mp s_with_cache ls_array ls_loaded ls_la].
         -- exact R1. -- exact R2. -- exact R3. -- exact R4. -- exact R5. -- reflexivity. -- exact R7. -- exact R8.
         -- rewrite <- R2. exact Ck'. -- exact Hc'.
-        -- intros k' E'. split; [exact N'|]. split; [exact Fl' | intro Coh'; congruence].
+        -- intros k' E'. split; [exact N'|]. split; [exact Fl' | exact Ph'].
       * eexists _, _. split; [reflexivity|]. split; [|auto].
         constructor; cbn [mb_labels mb_slots mb_loaded mb_loaded_all mb_la mb_mp sb_labels sb_cache sb_mp s_with_cache ls_array ls_loaded ls_la].
         -- exact R1. -- exact R2. -- exact R3. -- exact R4. -- exact R5. -- exact R6. -- exact R7. -- exact R8.
         -- rewrite <- R2. exact Ck'. -- exact Hc'.
-        -- intros k' E'. split; [exact N'|]. split; [exact Fl' | intro Coh'; congruence].
+        -- intros k' E'. split; [exact N'|]. split; [exact Fl' | exact Ph'].
     + assert (Ck : cache_ok None (sb_cache L s)) by exact Ck0.
       destruct (run_loop_stale_none L F leqb leqb_spec st labels Coh slots loaded (count_true loaded) pending la R5
                   targets (sb_cache L s) Ck R10 Tcons Hpend_ne) as (Erun & Ck' & Hc').
